@@ -62,6 +62,11 @@ pub enum Cmd {
     Rem { k: i32 },
     #[form(tag = "clr")]
     Clr,
+    /// Drop the handle of the value / map downlink held by the agent.
+    #[form(tag = "dropv")]
+    DropV,
+    #[form(tag = "dropm")]
+    DropM,
 }
 
 type Slot<T> = Arc<Mutex<Option<T>>>;
@@ -172,6 +177,8 @@ impl DlLifecycle {
                 Cmd::Upd { k, v } => mslot.lock().as_ref().map(|h| h.update(k, v).is_ok()),
                 Cmd::Rem { k } => mslot.lock().as_ref().map(|h| h.remove(k).is_ok()),
                 Cmd::Clr => mslot.lock().as_ref().map(|h| h.clear().is_ok()),
+                Cmd::DropV => Some(vslot.lock().take().is_some()),
+                Cmd::DropM => Some(mslot.lock().take().is_some()),
             };
             let mut c = counts.lock();
             c.0 += 1;
@@ -264,6 +271,18 @@ impl HostedTarget {
     }
 }
 
+impl HostedTarget {
+    async fn command(&mut self, cmd: Cmd) {
+        let body = format!("{}", print_recon_compact(&cmd));
+        let msg: RequestMessage<&str, &[u8]> = RequestMessage::command(self.remote_id, RelativeAddress::new(NODE, "cmd"), body.as_bytes());
+        match tokio::time::timeout(IO_TIMEOUT, self.cmd.send(msg)).await {
+            Ok(Ok(())) => {}
+            Ok(Err(e)) => self.stuck.push(format!("hosted: command channel failed: {e}")),
+            Err(_) => self.stuck.push("hosted: command not accepted by the runtime".to_string()),
+        }
+    }
+}
+
 impl Target for HostedTarget {
     async fn write(&mut self, kind: Kind, chunk: &[u8]) -> bool {
         match kind {
@@ -279,13 +298,19 @@ impl Target for HostedTarget {
             LocalOp::Rem(k) => Cmd::Rem { k: *k },
             LocalOp::Clr => Cmd::Clr,
         };
-        let body = format!("{}", print_recon_compact(&cmd));
-        let msg: RequestMessage<&str, &[u8]> = RequestMessage::command(self.remote_id, RelativeAddress::new(NODE, "cmd"), body.as_bytes());
-        match tokio::time::timeout(IO_TIMEOUT, self.cmd.send(msg)).await {
-            Ok(Ok(())) => {}
-            Ok(Err(e)) => self.stuck.push(format!("hosted: command channel failed: {e}")),
-            Err(_) => self.stuck.push("hosted: command not accepted by the runtime".to_string()),
-        }
+        self.command(cmd).await;
+    }
+
+    async fn drop_handle(&mut self, kind: Kind) {
+        // The agent drops the handle when it executes the command: the downlink's write stream and
+        // its stop trigger end, the downlink keeps reading.
+        self.command(if kind == Kind::Value { Cmd::DropV } else { Cmd::DropM }).await;
+    }
+
+    async fn output_fault(&mut self, _kind: Kind) {
+        // Inside a script the hosted implementation is run without the fault (the client's reading
+        // side must behave as if nothing had happened, so the logs stay comparable); what a failed
+        // write does to a hosted downlink is driven by `Loss::OutputFault`.
     }
 
     fn trace_len(&self, kind: Kind) -> usize {
@@ -296,13 +321,26 @@ impl Target for HostedTarget {
     }
 }
 
-/// A scripted input-channel close (the connection to the remote lane is lost) after which the agent
-/// is expected to ask the runtime for a new connection (hosted only).
+/// How the connection of a hosted downlink fails.
+#[derive(Clone, Debug)]
+pub enum Loss {
+    /// The harness drops its writer of the downlink's input: the downlink reads end-of-stream.
+    InputClosed,
+    /// Output side only: the reader of the downlink's output goes away and, once that is settled,
+    /// the local write is issued, so that the downlink's write fails while its input is open and
+    /// silent (no `unlinked`, no end-of-stream passes through the downlink before the agent
+    /// replaces the connection).
+    OutputFault(LocalOp),
+}
+
+/// A scripted loss of the connection to the remote lane after which the agent is expected to ask
+/// the runtime for a new connection (hosted only).
 #[derive(Clone, Debug)]
 pub struct Reconnect {
-    /// Merged-script position *before* which the channels are closed.
+    /// Merged-script position *before* which the connection fails.
     pub at: usize,
     pub kind: Kind,
+    pub loss: Loss,
 }
 
 #[derive(Default, Clone, Debug)]
@@ -372,17 +410,17 @@ pub fn run_hosted(
         let mut m_in = None;
         let v_out = Arc::new(Mutex::new(Vec::new()));
         let m_out = Arc::new(Mutex::new(Vec::new()));
-        let mut readers = vec![];
+        let mut readers: Vec<(Kind, JoinHandle<()>)> = vec![];
         while let Ok(c) = conn_rx.try_recv() {
             extra.connections += 1;
             match c.kind {
                 Kind::Value => {
                     v_in = Some(c.input);
-                    readers.push(tokio::spawn(value_op_reader(c.output, v_out.clone())));
+                    readers.push((Kind::Value, tokio::spawn(value_op_reader(c.output, v_out.clone()))));
                 }
                 Kind::Map => {
                     m_in = Some(c.input);
-                    readers.push(tokio::spawn(map_op_reader(c.output, m_out.clone())));
+                    readers.push((Kind::Map, tokio::spawn(map_op_reader(c.output, m_out.clone()))));
                 }
             }
         }
@@ -403,7 +441,7 @@ pub fn run_hosted(
         let mut from = 0usize;
         let mut cuts: Vec<Reconnect> = reconnects.to_vec();
         cuts.sort_by_key(|r| r.at);
-        for rc in cuts.iter().chain(std::iter::once(&Reconnect { at: merged.len(), kind: Kind::Value })) {
+        for rc in cuts.iter().chain(std::iter::once(&Reconnect { at: merged.len(), kind: Kind::Value, loss: Loss::InputClosed })) {
             let to = rc.at.min(merged.len()).max(from);
             let part = drive(&mut target, &merged[from..to], n_value, n_map, mode, &mut rng).await;
             marks.absorb(part);
@@ -411,11 +449,24 @@ pub fn run_hosted(
             if rc.at >= merged.len() {
                 break;
             }
-            // Lose the connection of one downlink: drop the harness' writer.
             let before = target.trace_len(rc.kind);
-            match rc.kind {
-                Kind::Value => target.v_in = None,
-                Kind::Map => target.m_in = None,
+            match &rc.loss {
+                // Lose the connection of one downlink: drop the harness' writer.
+                Loss::InputClosed => match rc.kind {
+                    Kind::Value => target.v_in = None,
+                    Kind::Map => target.m_in = None,
+                },
+                Loss::OutputFault(op) => {
+                    // Dropping the reading task(s) drops the `ByteReader` of the output channel.
+                    let (gone, kept): (Vec<_>, Vec<_>) = std::mem::take(&mut readers).into_iter().partition(|(k, _)| *k == rc.kind);
+                    readers = kept;
+                    for (_, r) in gone {
+                        r.abort();
+                        let _ = r.await;
+                    }
+                    settle().await;
+                    target.local(rc.kind, op).await;
+                }
             }
             settle().await;
             settle().await;
@@ -427,11 +478,11 @@ pub fn run_hosted(
                 match c.kind {
                     Kind::Value => {
                         target.v_in = Some(c.input);
-                        readers.push(tokio::spawn(value_op_reader(c.output, v_out.clone())));
+                        readers.push((Kind::Value, tokio::spawn(value_op_reader(c.output, v_out.clone()))));
                     }
                     Kind::Map => {
                         target.m_in = Some(c.input);
-                        readers.push(tokio::spawn(map_op_reader(c.output, m_out.clone())));
+                        readers.push((Kind::Map, tokio::spawn(map_op_reader(c.output, m_out.clone()))));
                     }
                 }
             }
@@ -476,7 +527,7 @@ pub fn run_hosted(
         extra.handle_errors = c.1;
         server.abort();
         drain.abort();
-        for r in readers {
+        for (_, r) in readers {
             r.abort();
         }
         (obs, extra)
